@@ -68,7 +68,9 @@ static size_t amax[3], asum[3];
 static long rwaits, wwaits, vtime_ms, longest_call_ms, call_ms;
 static int fs_guard = 0;
 static long fs_denied = 0;
-static long cb_kbd, cb_ptr, cb_cut, cb_utf8, cb_chat, cb_sw, cb_si, cb_xvp, cb_sds;
+static long cb_kbd, cb_ptr, cb_cut, cb_utf8, cb_chat, cb_sw, cb_si, cb_xvp, cb_sds, cb_base;
+static long cb_ext;
+static long cb_total(void) { return cb_kbd + cb_cut + cb_utf8 + cb_chat + cb_sw + cb_si + cb_xvp + cb_sds + cb_ext; }
 
 static void mhook(const volatile void *p, size_t sz) {
   (void)p;
@@ -238,6 +240,18 @@ static int app_sds(int w, int h, int n, rfbExtDesktopScreen *s, rfbClientPtr cl)
   return cSdh == 2 ? 0 : rfbExtDesktopSize_ResizeProhibited;
 }
 
+/* a protocol extension of the application: one pseudo-encoding, every enable call is counted
+   (an enable call after a failed read would show as an extra callback) */
+#define C04_PSEUDO_ENC 0x43303400
+static int c04_pseudo[] = { C04_PSEUDO_ENC, 0 };
+static rfbBool c04_enable(rfbClientPtr cl, void **data, int enc) {
+  (void)cl; (void)data;
+  if (enc != C04_PSEUDO_ENC) return FALSE;
+  cb_ext++;
+  return TRUE;
+}
+static rfbProtocolExtension c04_ext = { NULL, NULL, c04_pseudo, c04_enable, NULL, NULL, NULL, NULL, NULL };
+
 /* ------------------------------------------------------------------ helpers */
 static int alive(hconn *h) { return h->used && h->c.cl && h->c.cl->sock != RFB_INVALID_SOCKET; }
 static int srv_readable(hconn *h) {
@@ -297,6 +311,7 @@ static const char *aclass(size_t n) {
 }
 static void meas_reset(void) {
   amax[1] = amax[2] = asum[1] = asum[2] = 0; rwaits = wwaits = vtime_ms = 0; longest_call_ms = 0;
+  cb_base = cb_total();
 }
 static void capture_challenge(hconn *h) {
   if (h->c.out.n >= 16) { memcpy(h->chal, h->c.out.p + h->c.out.n - 16, 16); h->have_chal = 1; }
@@ -304,8 +319,8 @@ static void capture_challenge(hconn *h) {
 static void report(int id, hconn *h, int n) {
   const char *st = alive(h) ? "open" : "closed";
   int state = alive(h) ? (int)h->c.cl->state : -1;
-  printf("r %d %s:%d n=%d rw=%ld ww=%ld vt=%ld a=%s\n", id, st, state, n, rwaits, wwaits, vtime_ms,
-         aclass(amax[1]));
+  printf("r %d %s:%d n=%d rw=%ld ww=%ld vt=%ld cb=%ld a=%s\n", id, st, state, n, rwaits, wwaits, vtime_ms,
+         cb_total() - cb_base, aclass(amax[1]));
   printf("#raw id=%d amax=%zu asum=%zu umax=%zu usum=%zu call=%ld fsden=%ld cb=%ld,%ld,%ld,%ld,%ld,%ld,%ld,%ld,%ld\n",
          id, amax[1], asum[1], amax[2], asum[2], longest_call_ms, fs_denied,
          cb_kbd, cb_ptr, cb_cut, cb_utf8, cb_chat, cb_sw, cb_si, cb_xvp, cb_sds);
@@ -395,7 +410,7 @@ int main(int argc, char **argv) {
   int i;
   for (i = 1; i < argc; i++) if (!strcmp(argv[i], "--solo")) solo = 1;
   signal(SIGALRM, hang);
-  snprintf(sandbox, sizeof sandbox, "/tmp/c04sbx-%d", (int)getpid());
+  snprintf(sandbox, sizeof sandbox, "/tmp/c04sbx-%07d", (int)getpid());
   mkdir(sandbox, 0700);
   setenv("HOME", sandbox, 1);
   __sanitizer_install_malloc_and_free_hooks(mhook, fhook);
@@ -415,6 +430,7 @@ int main(int argc, char **argv) {
     } else if (!strcmp(tok[0], "start") && !started) {
       char f[300]; int fd;
       if (cTight) { rfbRegisterTightVNCFileTransferExtension(); SetFtpRoot(sandbox); }
+      rfbRegisterProtocolExtension(&c04_ext);
       scr = vh_screen(cW, cH, cBpp);
       if (!scr) { puts("no-screen"); return 2; }
       scr->alwaysShared = TRUE;
@@ -437,7 +453,12 @@ int main(int argc, char **argv) {
     } else if (!strcmp(tok[0], "conn") && n == 3) {
       int id = atoi(tok[1]); static unsigned char pre[8192]; long pl; hconn *h;
       if (solo) { goto next; }
-      if (id <= 0 || id >= MAXC || (H[id].used && alive(&H[id]))) { puts("bad-op"); goto next; }
+      if (id <= 0 || id >= MAXC) { puts("bad-op"); goto next; }
+      if (H[id].used && alive(&H[id])) {     /* the old peer of this slot hangs up first */
+        if (H[id].c.peer >= 0) { close(H[id].c.peer); H[id].c.peer = -1; }
+        pump_conn(&H[id]); pump_updates();
+        if (alive(&H[id])) { rfbCloseClient(H[id].c.cl); pump_updates(); }
+      }
       if (H[id].used) {            /* recycle the slot of a connection that is gone */
         if (H[id].c.peer >= 0) close(H[id].c.peer);
         free(H[id].c.out.p); free_segs(&H[id]); memset(&H[id], 0, sizeof H[id]);
